@@ -44,11 +44,13 @@ func (l *evlog) buf() *evbuf {
 	return b
 }
 
-func (l *evlog) add(b *evbuf, m map[string]any) {
+func (l *evlog) add(b *evbuf, m map[string]any) uint64 {
 	if l.off.Load() {
-		return
+		return 0
 	}
-	b.evs = append(b.evs, event{l.ctr.Add(1), m})
+	seq := l.ctr.Add(1)
+	b.evs = append(b.evs, event{seq, m})
+	return seq
 }
 
 func (l *evlog) merged() []map[string]any {
